@@ -1,6 +1,7 @@
 (* Session group, shared utilities: bytes, decimal printing/parsing, hex, timestamps.
    No proofs in this file (see SessProofs*.v). *)
 From Coq Require Import NArith ZArith List Bool.
+From Coq Require Decimal DecimalN.
 Import ListNotations.
 Local Open Scope N_scope.
 
@@ -29,14 +30,23 @@ Fixpoint bgt (a b : bytes) : bool :=
   end.
 
 (* ---- decimal ------------------------------------------------------------------------- *)
-(* digits of n, most significant first; fuel = number of digits is at most log2 n + 1 *)
-Fixpoint dec_aux (fuel : nat) (n : N) (acc : bytes) : bytes :=
-  match fuel with
-  | O => acc
-  | S f => let acc' := (ch_0 + n mod 10) :: acc in
-           if n / 10 =? 0 then acc' else dec_aux f (n / 10) acc'
+(* canonical decimal (itoa): through the standard library's Decimal.uint, whose conversions
+   come with round-trip lemmas (DecimalN.Unsigned.of_to) *)
+Fixpoint bytes_of_uint (u : Decimal.uint) : bytes :=
+  match u with
+  | Decimal.Nil => []
+  | Decimal.D0 u' => 48 :: bytes_of_uint u'
+  | Decimal.D1 u' => 49 :: bytes_of_uint u'
+  | Decimal.D2 u' => 50 :: bytes_of_uint u'
+  | Decimal.D3 u' => 51 :: bytes_of_uint u'
+  | Decimal.D4 u' => 52 :: bytes_of_uint u'
+  | Decimal.D5 u' => 53 :: bytes_of_uint u'
+  | Decimal.D6 u' => 54 :: bytes_of_uint u'
+  | Decimal.D7 u' => 55 :: bytes_of_uint u'
+  | Decimal.D8 u' => 56 :: bytes_of_uint u'
+  | Decimal.D9 u' => 57 :: bytes_of_uint u'
   end.
-Definition dec (n : N) : bytes := dec_aux (S (N.to_nat (N.log2 n))) n [].
+Definition dec (n : N) : bytes := bytes_of_uint (N.to_uint n).
 
 Definition decZ (z : Z) : bytes :=
   match z with
@@ -54,14 +64,28 @@ Definition pad (w : nat) (n : N) : bytes := pad_aux w n [].
 
 Definition is_digit (b : N) : bool := (48 <=? b) && (b <=? 57).
 
-(* plain decimal value of a digit string; None if empty or a non-digit occurs *)
-Fixpoint undec_aux (l : bytes) (acc : N) : option N :=
+(* digit string -> Decimal.uint; None if a non-digit occurs *)
+Fixpoint uint_of_bytes (l : bytes) : option Decimal.uint :=
   match l with
-  | [] => Some acc
-  | b :: l' => if is_digit b then undec_aux l' (acc * 10 + (b - 48)) else None
+  | [] => Some Decimal.Nil
+  | b :: l' =>
+    match uint_of_bytes l' with
+    | None => None
+    | Some u =>
+      if b =? 48 then Some (Decimal.D0 u) else if b =? 49 then Some (Decimal.D1 u)
+      else if b =? 50 then Some (Decimal.D2 u) else if b =? 51 then Some (Decimal.D3 u)
+      else if b =? 52 then Some (Decimal.D4 u) else if b =? 53 then Some (Decimal.D5 u)
+      else if b =? 54 then Some (Decimal.D6 u) else if b =? 55 then Some (Decimal.D7 u)
+      else if b =? 56 then Some (Decimal.D8 u) else if b =? 57 then Some (Decimal.D9 u)
+      else None
+    end
   end.
+(* plain decimal value of a digit string; None if empty or a non-digit occurs *)
 Definition undec (l : bytes) : option N :=
-  match l with [] => None | _ => undec_aux l 0 end.
+  match l with
+  | [] => None
+  | _ => match uint_of_bytes l with Some u => Some (N.of_uint u) | None => None end
+  end.
 
 (* fast_atoi<unsigned>(p, term): retval = retval*10 + (signed char)c - '0'  mod 2^32, up to the
    terminator; None = the terminator does not occur (the C++ runs off the end) *)
